@@ -22,7 +22,7 @@ IMPORTS = ["UPV.Core.Expr", "UPV.Core.Eval", "UPV.Core.Interp", "UPV.Planning.Pr
 # identifiers that collide after joining with "_" (a_b + c / a + b_c), prefixes of one another, digits, mixed case,
 # names that look like generated suffixes
 ADVERSARIAL_OBJ = ["a", "b", "a_b", "b_c", "c", "A", "k1", "and", "a_", "_b", "a_b_c", "c_0", "b_c_0", "a__b", "K1", "a1",
-                   "a_1", "x0", "X0", "not_b0", "act0", "act0_a"]
+                   "a_1", "x0", "X0", "not_b0", "act1_a", "act0_a"]
 ADVERSARIAL_ACT = ["act0", "act0_a", "act0_a_b", "move", "move_a", "Move", "act_0", "act0_0", "a", "not_b0", "m1", "m1_0",
                    "b", "cerm", "dnf_fake_action", "utfr"]
 
@@ -576,9 +576,31 @@ def real_validate(problem, plan):
         return None, "%s:%s" % (type(e).__name__, str(e)[:120])
 
 
+def quantifier_under_negation(e, neg=False):
+    """a quantifier in a negative (or both-polarity) position: Nnf leaves `not Exists ...` as an atom"""
+    if e.is_exists() or e.is_forall():
+        return neg or quantifier_under_negation(e.arg(0), False)
+    if e.is_not():
+        return quantifier_under_negation(e.arg(0), not neg)
+    if e.is_iff():
+        return any(quantifier_under_negation(a, True) for a in e.args)
+    if e.is_implies():
+        return quantifier_under_negation(e.arg(0), not neg) or quantifier_under_negation(e.arg(1), neg)
+    if e.is_and() or e.is_or():
+        return any(quantifier_under_negation(a, neg) for a in e.args)
+    return False
+
+
 def shape_tags(problem):
     """narrow tags describing the input shape (used by KNOWN_FINDINGS signatures)"""
     tags = set()
+    conds = list(problem.goals)
+    for a in problem.actions:
+        conds += list(a.preconditions) + [e.condition for e in a.effects]
+    for tc in problem.trajectory_constraints:
+        conds += list(tc.args)
+    if any(quantifier_under_negation(c) for c in conds):
+        tags.add("quantifier-under-negation")
     for a in problem.actions:
         effs = list(a.effects)
         by_fluent = {}
